@@ -1426,3 +1426,179 @@ ANCHORS = [('swh/model/collections.py', 'ImmutableDict.*'),
            ('swh/model/model.py', 'tuplify_extra_headers'),
            ('swh/model/model.py', 'Revision.__attrs_post_init__'),
            ('swh/model/model.py', 'Snapshot.from_dict')]
+
+
+# the case stream is ordered by class: coq_cases gets every case and keeps a spread over the whole stream (it shrinks the list
+# it is given IN PLACE: the evidence's `n` is the number evaluated)
+COQ_SAMPLE = 1 << 30
+
+
+def coq_cases(cases):
+    """run_script / run_twins (with the driver's constant id / hash functions) evaluated by vm_compute inside Coq vs the
+    extracted driver.  The Coq terms are built from the very request lines the driver receives, and the Coq side prints
+    the answer LINE itself (a transcription of the driver's printer into Gallina): the checksum is over the bytes of the
+    answer line; one checksum per case (extraction cross-check)"""
+    from . import core
+    fam = {"script": [], "twins": [], "perms": []}
+    for c in cases:
+        if c["kind"] in fam and (c["kind"] != "perms" or len(c["items"]) <= 3):
+            fam[c["kind"]].append(c)
+    def spread(l, n):
+        return l[::max(1, len(l) // n)][:n] if l else []
+    chosen = []
+    n_script = 0
+    for c in spread(fam["script"], 48) + spread(fam["twins"], 10) + fam["perms"][-2:]:
+        rqs = requests(c)
+        if not rqs or sum(len(r) for r in rqs) > 4000:
+            continue
+        if c["kind"] == "script":
+            # every step re-observes the whole object: vm_compute time grows with size x steps
+            if n_script >= 16 or len(rqs[0]) * (2 + rqs[0].split(" ")[7].count("|")) > 12000:
+                continue
+            n_script += 1
+        chosen.append((c, rqs))
+    cases[:] = [c for c, _ in chosen]
+
+    def nl(h):
+        return "[" + "; ".join("%d" % b for b in bytes.fromhex(h)) + "]%N"
+    def value(s, i):
+        """parses one value at s[i:], returns (coq term, next index)"""
+        ch = s[i]
+        i += 1
+        def take(pred):
+            nonlocal i
+            j = i
+            while i < len(s) and pred(s[i]):
+                i += 1
+            return s[j:i]
+        def plist():
+            nonlocal i
+            assert s[i] == "("
+            i += 1
+            out = []
+            if s[i] == ")":
+                i += 1
+                return out
+            while True:
+                t, i = value(s, i)
+                out.append(t)
+                if s[i] == ";":
+                    i += 1
+                    continue
+                assert s[i] == ")"
+                i += 1
+                return out
+        if ch == "N":
+            return "VNone", i
+        if ch == "A":
+            return "(VAtom %s)" % nl(take(lambda x: x in "0123456789abcdef")), i
+        if ch in "IR":
+            return "(%s %d%%nat)" % ("VIDict" if ch == "I" else "VRef", int(take(str.isdigit))), i
+        if ch == "T":
+            return "(VTuple [%s])" % "; ".join(plist()), i
+        if ch == "O":
+            cls = take(lambda x: x in "0123456789abcdef")
+            return "(VObj %s [%s])" % (nl(cls), "; ".join(plist())), i
+        raise ValueError(s[i - 1:i + 20])
+    def val(s):
+        t, i = value(s, 0)
+        assert i == len(s), s
+        return t
+    def args(s):
+        t, i = value("T" + s, 0)
+        return t[len("(VTuple "):-1]
+    def cell(s):
+        inner = s[2:-1]
+        if s[0] == "L":
+            return "PyList %s" % args("(" + inner + ")")
+        items = []
+        for kv in (split_top(inner, ";") if inner else []):
+            k, v = kv.split("=", 1)
+            items.append("(%s, %s)" % (nl(k), val(v)))
+        return "PyDict %s [%s]" % ("true" if s[0] == "F" else "false", "; ".join(items))
+    def store(s):
+        return "[" + ("" if s == "." else "; ".join(cell(x) for x in s.split("|"))) + "]"
+    def step(s):
+        p = s.split(":")
+        k = p[0]
+        if k == "set":
+            return "SMut (MSetItem %s%%nat %s %s)" % (p[1], nl(p[2]), val(p[3]))
+        if k == "del":
+            return "SMut (MDelItem %s%%nat %s)" % (p[1], nl(p[2]))
+        if k == "clear":
+            return "SMut (MClear %s%%nat)" % p[1]
+        if k == "app":
+            return "SMut (MAppend %s%%nat %s)" % (p[1], val(p[2]))
+        if k == "idx":
+            return "SMut (MSetIndex %s%%nat %s%%nat %s)" % (p[1], p[2], val(p[3]))
+        if k == "pop":
+            return "SMut (MPop %s%%nat)" % p[1]
+        if k in ("setattr", "setitem"):
+            return "SChan (%s %s VNone)" % ({"setattr": "CSetAttr", "setitem": "CSetItem"}[k], nl(p[1]))
+        if k in ("delattr", "delitem"):
+            return "SChan (%s %s)" % ({"delattr": "CDelAttr", "delitem": "CDelItem"}[k], nl(p[1]))
+        if k == "copypop":
+            return "SCopyPop %s" % nl(p[1])
+        assert k == "read", s
+        fld = "None" if p[1] == "-" else "(Some %s)" % nl(p[1])
+        if len(p) == 4:
+            return "SRead %s (%s %s)" % (fld, {"contains": "RdContains", "get": "RdGet", "getitem": "RdGetItem"}[p[2]], nl(p[3]))
+        return "SRead %s %s" % (fld, {"iter": "RdIter", "len": "RdLen", "items": "RdItems", "todict": "RdToDict", "hash": "RdHash",
+                                      "eq": "RdEq"}[p[2]])
+    VAR = {"new": "New", "old": "Old", "popinplace": "PopInPlace", "subclasscopy": "SubclassCopy"}
+    def term(rq):
+        w = rq.split(" ")
+        if w[0] == "run":
+            return "show_run (run_script hid hpy %s %d%%nat %s %s %s %s [%s] %s)" % (
+                VAR[w[1]], int(w[2]), "FromDict" if w[3] == "fromdict" else "Ctor", nl(w[4]), store(w[5]), args(w[6]),
+                "" if w[7] == "." else "; ".join(step(x) for x in w[7].split("|")), args(w[8]))
+        assert w[0] == "twins", rq
+        return "show_twins (run_twins hid %s %d%%nat %s %s %s %s)" % (VAR[w[1]], int(w[2]), nl(w[3]), store(w[4]), args(w[5]), args(w[6]))
+    src = ("From Coq Require Import List NArith.\nFrom SWH.lib Require Import Bytes Hex.\nFrom SWH.model Require Import Frozen.\n"
+           "Import ListNotations.\n" + core.COQ_CHECKSUM + """
+(* the driver's printer (ocaml/drv_C11.ml), transcribed: the answer line as bytes *)
+Definition sepcat (sep : N) (l : list (list N)) : list N :=
+  match l with [] => [] | x :: r => x ++ concat (map (fun y => sep :: y) r) end.
+Fixpoint show (r : rval) : list N :=
+  match r with
+  | RNone => bs "N"
+  | RAtom a => bs "A" ++ hexlify a
+  | RSeq m l => (if m then bs "L(" else bs "T(") ++ sepcat 59%N (map show l) ++ bs ")"
+  | RMap m it => (if m then bs "D{" else bs "M{")
+                 ++ sepcat 59%N (map (fun kv : list N * rval => hexlify (fst kv) ++ bs "=" ++ show (snd kv)) it) ++ bs "}"
+  | RObj c l => bs "O" ++ hexlify c ++ bs "(" ++ sepcat 59%N (map show l) ++ bs ")"
+  | ROut => bs "OUT"
+  | RBad => bs "BAD"
+  end.
+Definition show_key (o : option rval) : list N := match o with Some r => show r | None => bs "U" end.
+Definition show_err (e : err) : list N :=
+  match e with
+  | ETypeError => bs "TypeError" | EValueError => bs "ValueError" | EKeyError => bs "KeyError" | EIndexError => bs "IndexError"
+  | EFrozenInstanceError => bs "FrozenInstanceError" | EAttributeError => bs "AttributeError" | EOutOfFuel => bs "OutOfFuel"
+  end.
+Definition b01 (b : bool) : list N := if b then bs "1" else bs "0".
+Definition show_obs (o : rval * rval * option rval * result N * bool) : list N :=
+  match o with (r, d, k, _, ok) => show r ++ bs "," ++ show d ++ bs "," ++ show_key k ++ bs "," ++ b01 ok end.
+Definition hid (_ : rval) : list N := [1%N; 42%N].
+Definition hpy (_ : rval) : N := 0%N.
+Definition show_run (x : result (observation * list (option err * observation) * list observation * list observation)) : list N :=
+  match x with
+  | Err e => bs "err " ++ show_err e
+  | Ok (o0, l, wb, wa) =>
+      bs "ok " ++ sepcat 32%N (show_obs o0
+        :: map (fun eo : option err * observation =>
+                  (match fst eo with None => bs "-" | Some e => show_err e end) ++ bs "/" ++ show_obs (snd eo)) l
+        ++ map (fun o => bs "wb:" ++ show_obs o) wb ++ map (fun o => bs "wa:" ++ show_obs o) wa)
+  end.
+Definition show_twins (x : result (bool * bool * option rval * option rval)) : list N :=
+  match x with
+  | Err e => bs "err " ++ show_err e
+  | Ok (e12, e21, k1, k2) => bs "ok " ++ b01 e12 ++ bs " " ++ b01 e21 ++ bs " " ++ show_key k1 ++ bs " " ++ show_key k2
+  end.
+""" + "Definition cases : list (list (list N)) := [" +
+           ";\n ".join("[" + ";\n  ".join(term(r) for r in rqs) + "]" for _, rqs in chosen) + "].\n"
+           "Eval vm_compute in map (fun rs => cksum (map cksum rs)) cases.\n")
+    flat = [r for _, rqs in chosen for r in rqs]
+    resp = iter(core.run_driver(ID, flat))
+    exp = [core.py_cksum([core.py_cksum(next(resp).encode()) for _ in rqs]) for _, rqs in chosen]
+    return src, exp
